@@ -24,7 +24,7 @@ type Box struct {
 	Depth    int
 }
 
-func (b *Box) End() int         { return b.Start + b.Size }
+func (b *Box) End() int          { return b.Start + b.Size }
 func (b *Box) PayloadStart() int { return b.Start + b.HdrSize }
 
 // plain containers: children start right after the header
@@ -36,6 +36,7 @@ var containers = map[string]int{
 	"avc1": 78, "avc3": 78, "hvc1": 78, "hev1": 78, "encv": 78, "av01": 78, "vvc1": 78, "vvi1": 78, "vp08": 78, "vp09": 78, "avs3": 78,
 	"mp4a": 28, "enca": 28, "ac-3": 28, "ec-3": 28, "ac-4": 28, "Opus": 28, "mha1": 28, "mhm1": 28,
 	"wvtt": 8, "stpp": -1, "evte": 8,
+	"\xa9too": 0, "\xa9nam": 0, "\xa9ART": 0, "\xa9cpy": 0,
 }
 
 // IsContainer reports whether the walker descends into boxes of this type.
@@ -169,7 +170,9 @@ func Header(typ string, payloadLen int, large bool) []byte {
 }
 
 // Make builds a complete box.
-func Make(typ string, payload []byte) []byte { return append(Header(typ, len(payload), false), payload...) }
+func Make(typ string, payload []byte) []byte {
+	return append(Header(typ, len(payload), false), payload...)
+}
 
 // ---------------------------------------------------------------------------------------------
 // test data files of the repository
